@@ -168,7 +168,7 @@ def run(ctx):
 
 def correspondence(ctx):
     rng = ctx.rng
-    n = 220 if ctx.quick else 5000
+    n = 180 if ctx.quick else 4000
     cases = []
     for k in range(n):
         force = {}
@@ -217,7 +217,7 @@ def correspondence(ctx):
 
 def audit(ctx):
     rng = ctx.rng
-    n = 150 if ctx.quick else 3000
+    n = 110 if ctx.quick else 2500
     cases = [gen_consts(rng, {"add": True} if k % 2 else {}) for k in range(n)]
     res = ctx.run_impl("c09_audit", {"cases": cases, "seed": rng.randint(0, 1 << 30)})
     ctx.notes["audit"] = {k: v for k, v in res.items() if k != "failures"}
